@@ -198,6 +198,16 @@ class BitWidth:
             loc = self.field_loc(pl)
             if loc:
                 return self.loc_width(loc, tw)
+            # component of a local tuple built in this body (`let (a, b) = (x, y)`, a helper's tuple result after inlining)
+            if len(projs) == 1 and isinstance(projs[0], dict) and str(projs[0].get("f", "")).isdigit() and pl["l"] not in stack:
+                ds = b.defs.get(pl["l"], [])
+                for _hop in range(4):   # `let t = helper_result;` copies of the tuple
+                    if len(ds) == 1 and ds[0][1] == "assign" and ds[0][2]["rv"]["k"] == "use" and ds[0][2]["rv"]["op"]["k"] in ("copy", "move") and not ds[0][2]["rv"]["op"]["pl"]["p"]:
+                        ds = b.defs.get(ds[0][2]["rv"]["op"]["pl"]["l"], [])
+                    else:
+                        break
+                if ds and all(k == "assign" and n["rv"]["k"] == "agg" and int(projs[0]["f"]) < len(n["rv"].get("ops", [])) for _, k, n in ds):
+                    return min(tw, max(self.operand(b, n["rv"]["ops"][int(projs[0]["f"])], stack + (pl["l"],)) for _, k, n in ds))
             # field of a local aggregate (tuple temp etc.)
             return tw
         l = pl["l"]
